@@ -116,7 +116,7 @@ class CxxModule:
         self.funcs = {}
         self.overloads = {}
         self.lib = lib            # constants of the library are folded through it
-        for q in list(lib.funcs):
+        for q in list(lib.funcs) + list(getattr(lib, 'helpers', {})):
             if not q.startswith(tuple(prefixes)):
                 continue
             for f in lib.fns(q):                 # instantiations, not the template pattern
@@ -286,6 +286,14 @@ class AEval:
                 cur = self.ev(a[0], env, depth)
                 v = self.binop(a[2][:-1], cur, v, s.loc)
             self.store(a[0], v, env, depth)
+        elif k == 'decl' and self.typed and a[2] is not None and _mutable_ref(a[1]):
+            # T& x = <lvalue>: the name designates the storage of the initialiser
+            it = self._ity((a[1] or '').rstrip()[:-1])
+            env[a[0]] = self.ref_of(a[2], env, depth)
+            env['\x00ref:' + a[0]] = True
+            if it is not None:
+                env['\x00ty:' + a[0]] = it
+            env.pop('\x00ptr:' + a[0], None)
         elif k == 'decl':
             it = self._ity(a[1])
             env[a[0]] = self._wrap(self.ev(a[2], env, depth), it) if a[2] is not None else None
@@ -336,6 +344,25 @@ class AEval:
                     except _Continue:
                         pass
                     self.block(step, env, depth)
+        elif k == 'switch':
+            v = self.ev(a[0], env, depth)
+            arms = a[1]
+            start = None
+            for i, (labels, _blk) in enumerate(arms):
+                if any(l_ is not None and self.ev(l_, env, depth) == v for l_ in labels):
+                    start = i
+                    break
+            if start is None:
+                for i, (labels, _blk) in enumerate(arms):
+                    if None in labels:
+                        start = i
+                        break
+            if start is not None:
+                try:
+                    for _labels, blk in arms[start:]:      # an arm that does not end in break falls into the next one
+                        self.block(blk, env, depth)
+                except _Break:
+                    pass
         elif k == 'break':
             raise _Break()
         elif k == 'continue':
@@ -578,6 +605,13 @@ class AEval:
             if a[0] in ('list', 'tuple', 'set'):
                 vals = [self.ev(x, env, depth) for x in a[1]]
                 return vals if a[0] == 'list' else tuple(vals)
+            if self.typed and isinstance(a[0], str) and a[0].rstrip().endswith(']'):
+                # an array with an initialiser list: missing elements are zero
+                import re as _re
+                m_ = _re.search(r'\[(\d*)\]\s*$', a[0])
+                vals = [self.ev(x, env, depth) for x in a[1]]
+                n_ = int(m_.group(1)) if m_ and m_.group(1) else len(vals)
+                return vals + [0] * (n_ - len(vals))
             if self.typed and isinstance(a[0], str) and getattr(self.module, 'lib', None) is not None:
                 # C++: a value of class type built by one of its constructors (member initialisers are stores to this.field)
                 lib = self.module.lib
